@@ -90,7 +90,7 @@ def _gen(rng, kind, dom, n):
 
 
 def generate(rng, tier):
-    n = 300 if tier == "quick" else 6000
+    n = 300 if tier == "quick" else 2400
     out = []
     for i in range(n):
         kind = rng.choice(["durq", "dusq"])
